@@ -33,8 +33,10 @@ EXTENDS Naturals, Sequences, FiniteSets, TLC, Json, IOUtils
 
 CONSTANTS Source,       \* "enum" | "file"
           OrderMode,    \* "all": every interleaving of the calls; "Bfixed": B's calls in the order docstring, summary, toc
-          BMenu,        \* "small" | "full": fault sets tried for B's own docstring
-          Ns            \* numbers of errors a parser that returns with errors may report (subset of 1..2)
+          BMenu,        \* "tiny" | "small" | "full": fault sets tried for B's own docstring
+          Ns,           \* numbers of errors a parser that returns with errors may report (subset of 1..2)
+          PoisonedCache, \* TRUE while the tree has deviation epytext-half-built-document-cached (a to_node that fails keeps failing otherwise)
+          TocGuarded    \* FALSE while the tree has deviation format-toc-unguarded (TRUE: a to_node failure inside get_toc yields no toc)
 
 Objs == {"A", "B"}
 Ops  == {"docstring", "summary", "toc"}
@@ -50,13 +52,22 @@ Ops  == {"docstring", "summary", "toc"}
 \* toc     none | ok             no titles / a table of contents
 \*         noderaises            to_node raises inside get_toc (only NotImplementedError is caught there)
 \*         stanraises            the toc's to_stan raises
+\* field   ok | raises           to_stan of a field body (Field.format: "Broken description" in its place + report)
+\* node    ok                    to_node behaves as a function of the docstring (the faults above are then independent)
+\*         once                  DEVIATION PoisonedCache (epytext.py:1378-1392 ParsedEpytextDocstring.to_node stores the new,
+\*                               empty document in its cache BEFORE building it): the first to_node call raises, every later
+\*                               one returns the empty half-built document.  Realised by a real epytext docstring, not injected.
 Fault == [parse : {"ok", "warn", "fatal", "crash"}, n : 1..2, tostan : {"ok", "raises"},
-          summary : {"ok", "broken", "stanraises"}, toc : {"none", "ok", "noderaises", "stanraises"}]
-NoFault == [parse |-> "ok", n |-> 1, tostan |-> "ok", summary |-> "ok", toc |-> "none"]
+          summary : {"ok", "broken", "stanraises"}, toc : {"none", "ok", "noderaises", "stanraises"},
+          field : {"ok", "raises"}, node : {"ok", "once"}]
+NoFault == [parse |-> "ok", n |-> 1, tostan |-> "ok", summary |-> "ok", toc |-> "none", field |-> "ok", node |-> "ok"]
 \* after a fatal error / crash the plain text fallback object is used: the other faults can never be met
-Canonical(f) == /\ (f.parse \in {"fatal", "crash"} => f.tostan = "ok" /\ f.summary = "ok" /\ f.toc = "none")
+\* (the summary of the plain text object can fail too - control characters - but only a real text can make it: file mode)
+Canonical(f) == /\ (f.parse \in {"fatal", "crash"} => f.tostan = "ok" /\ f.summary = "ok" /\ f.toc = "none" /\ f.field = "ok")
                 /\ (f.parse = "ok" => f.n = 1) /\ (f.parse \in {"fatal", "crash"} => f.n = 1)
-SmallMenu == {NoFault, [NoFault EXCEPT !.parse = "fatal"], [NoFault EXCEPT !.tostan = "raises"]}
+                /\ (f.node = "once" => f = [NoFault EXCEPT !.node = "once"])
+SmallMenu == {NoFault, [NoFault EXCEPT !.parse = "fatal"], [NoFault EXCEPT !.tostan = "raises"], [NoFault EXCEPT !.node = "once"]}
+TinyMenu  == {NoFault, [NoFault EXCEPT !.tostan = "raises"]}
 
 \* all sequences in which each of the six calls happens once
 Calls == Objs \X Ops
@@ -75,13 +86,14 @@ VARIABLES tid, F, inherit, kindA, order,    \* configuration (fixed in Init)
           ps,          \* obj.parsed_summary   : "none" | "ok" | "brokensum" (get_summary gave up) | "brokenstan" (set by format_summary_fallback)
           perr,        \* System.parse_errors['docstring'] restricted to A, B
           nrep,        \* number of messages reported against each object
+          pz,          \* obj.parsed_docstring holds a half-built cached document (a to_node call on it has failed)
           res          \* results so far: sequence of [o, op, r]
-vars == <<tid, F, inherit, kindA, order, i, pd, ps, perr, nrep, res>>
+vars == <<tid, F, inherit, kindA, order, i, pd, ps, perr, nrep, pz, res>>
 
 Src(o) == IF o = "B" /\ inherit THEN "A" ELSE o
 
 \* ------------------------------------------------------------------ transcription (pure operators on a state record)
-St == [pd |-> pd, ps |-> ps, perr |-> perr, nrep |-> nrep]
+St == [pd |-> pd, ps |-> ps, perr |-> perr, nrep |-> nrep, pz |-> pz]
 
 \* reportErrors(source, errs): once per object
 ReportErrors(s, src, n) == IF src \in s.perr THEN s
@@ -94,23 +106,33 @@ ParseDocstring(s, o) == LET f == F[Src(o)]
 \* ensure_parsed_docstring(obj): parse once, cache on obj
 EnsureParsed(s, o) == IF s.pd[o] = "none" THEN ParseDocstring(s, o) ELSE s
 
-\* format_docstring(obj)
-DocstringStep(s, o) ==
-    LET s1 == EnsureParsed(s, o)
-        f  == F[Src(o)] IN
-    IF s1.pd[o] = "parsed" /\ f.tostan = "raises"
+\* format_docstring(obj): the body (safe_to_stan with the plain text fallback), then the fields (Field.format)
+DocstringBody(s1, o) ==
+    LET f == F[Src(o)] IN
+    IF s1.pd[o] = "parsed" /\ f.node = "once"
+      THEN IF ~s1.pz[o] \/ ~PoisonedCache
+             THEN [r |-> "plainfull", s |-> [ReportErrors(s1, Src(o), 1) EXCEPT !.pz[o] = PoisonedCache]]   \* to_stan -> to_node raises: fallback + report
+             ELSE [r |-> "lost", s |-> s1]              \* to_stan renders the empty cached document: no text, no report
+    ELSE IF s1.pd[o] = "parsed" /\ f.tostan = "raises"
       THEN [r |-> "plainfull", s |-> ReportErrors(s1, Src(o), 1)]      \* safe_to_stan -> format_docstring_fallback(ctx = source) + reportErrors(ctx)
       ELSE [r |-> (IF s1.pd[o] = "parsed" THEN "rendered" ELSE "plainfull"), s |-> s1]
+DocstringStep(s, o) ==
+    LET s1 == EnsureParsed(s, o)
+        b  == DocstringBody(s1, o) IN
+    IF s1.pd[o] = "parsed" /\ F[Src(o)].field = "raises"
+      THEN [r |-> b.r, s |-> ReportErrors(b.s, Src(o), 1)]             \* Field.format: safe_to_stan(fallback BROKEN) + reportErrors(source)
+      ELSE b
 
 \* format_summary(obj)
 SummaryStep(s, o) ==
     LET s1 == EnsureParsed(s, o)
         f  == F[Src(o)]
         \* _get_parsed_summary: cached, else parsed_docstring.get_summary()
-        fresh == IF s1.pd[o] = "parsed" /\ f.summary = "broken" THEN "brokensum" ELSE "ok"
-        s2 == IF s1.ps[o] = "none" THEN [s1 EXCEPT !.ps[o] = fresh] ELSE s1
+        once  == s1.pd[o] = "parsed" /\ f.node = "once"
+        fresh == IF f.summary = "broken" \/ (once /\ (~s1.pz[o] \/ ~PoisonedCache)) THEN "brokensum" ELSE "ok"
+        s2 == IF s1.ps[o] = "none" THEN [s1 EXCEPT !.ps[o] = fresh, !.pz[o] = (@ \/ (once /\ PoisonedCache))] ELSE s1
         cur == s2.ps[o] IN
-    IF cur = "ok" /\ s2.pd[o] = "parsed" /\ f.summary = "stanraises"
+    IF cur = "ok" /\ f.summary = "stanraises"
       \* safe_to_stan(report=False) -> format_summary_fallback: ctx.parsed_summary = BROKEN where ctx is the SOURCE
       THEN [r |-> "broken", s |-> [s2 EXCEPT !.ps[Src(o)] = "brokenstan"]]
       ELSE [r |-> (CASE cur = "ok" -> "summary" [] cur = "brokensum" -> "brokensum" [] cur = "brokenstan" -> "broken"), s |-> s2]
@@ -120,10 +142,15 @@ TocStep(s, o) ==
     LET s1 == EnsureParsed(s, o)
         f  == F[Src(o)] IN
     IF s1.pd[o] # "parsed" THEN [r |-> "none", s |-> s1]                \* plain text: no titles
+    ELSE IF f.node = "once"
+      THEN IF ~s1.pz[o] \/ ~PoisonedCache
+             THEN [r |-> (IF TocGuarded THEN "none" ELSE "escaped"), s |-> [s1 EXCEPT !.pz[o] = PoisonedCache]]
+             ELSE [r |-> "none", s |-> s1]
     ELSE CASE f.toc = "none"       -> [r |-> "none", s |-> s1]
            [] f.toc = "ok"         -> [r |-> "toc", s |-> s1]
            [] f.toc = "stanraises" -> [r |-> "broken", s |-> s1]         \* safe_to_stan(report=False, fallback BROKEN)
-           [] f.toc = "noderaises" -> [r |-> "escaped", s |-> s1]        \* get_toc catches NotImplementedError only; format_toc has no guard
+           \* get_toc catches NotImplementedError only; format_toc has no guard (deviation format-toc-unguarded)
+           [] f.toc = "noderaises" -> [r |-> (IF TocGuarded THEN "none" ELSE "escaped"), s |-> s1]
 
 Step(s, o, op) == CASE op = "docstring" -> DocstringStep(s, o)
                     [] op = "summary"   -> SummaryStep(s, o)
@@ -132,14 +159,16 @@ Step(s, o, op) == CASE op = "docstring" -> DocstringStep(s, o)
                     [] op = "extract_fields" -> [r |-> "done", s |-> ParseDocstring(s, o)]
 
 \* ------------------------------------------------------------------ behaviours
-Blank == [pd |-> [o \in Objs |-> "none"], ps |-> [o \in Objs |-> "none"], perr |-> {}, nrep |-> [o \in Objs |-> 0]]
+Blank == [pd |-> [o \in Objs |-> "none"], ps |-> [o \in Objs |-> "none"], perr |-> {}, nrep |-> [o \in Objs |-> 0],
+          pz |-> [o \in Objs |-> FALSE]]
 
 InitEnum == /\ Source = "enum" /\ tid = 0
             /\ inherit \in BOOLEAN /\ kindA \in {"func", "cls"}
             /\ (kindA = "cls" => ~inherit)
             /\ F \in [Objs -> {f \in Fault : Canonical(f) /\ f.n \in Ns}]
             /\ (inherit => F["B"] = NoFault)
-            /\ (~inherit => F["B"] \in (IF BMenu = "small" THEN SmallMenu ELSE {f \in Fault : Canonical(f) /\ f.n = 1}))
+            /\ (~inherit => F["B"] \in (CASE BMenu = "tiny" -> TinyMenu [] BMenu = "small" -> SmallMenu
+                                           [] OTHER -> {f \in Fault : Canonical(f) /\ f.n = 1}))
             /\ order \in Orders
 InitFile == /\ Source = "file" /\ tid \in 1..Len(Traces)
             /\ inherit = Traces[tid].inherit /\ kindA = Traces[tid].kindA
@@ -148,9 +177,9 @@ InitFile == /\ Source = "file" /\ tid \in 1..Len(Traces)
 Start == IF kindA = "cls" THEN ParseDocstring(Blank, "A") ELSE Blank       \* the builder has run extract_fields on the class
 Init == /\ (InitEnum \/ InitFile)
         /\ i = 1 /\ res = <<>>
-        /\ pd = Start.pd /\ ps = Start.ps /\ perr = Start.perr /\ nrep = Start.nrep
+        /\ pd = Start.pd /\ ps = Start.ps /\ perr = Start.perr /\ nrep = Start.nrep /\ pz = Start.pz
 
-Apply(o, op, out) == /\ pd' = out.s.pd /\ ps' = out.s.ps /\ perr' = out.s.perr /\ nrep' = out.s.nrep
+Apply(o, op, out) == /\ pd' = out.s.pd /\ ps' = out.s.ps /\ perr' = out.s.perr /\ nrep' = out.s.nrep /\ pz' = out.s.pz
                      /\ res' = Append(res, [o |-> o, op |-> op, r |-> out.r])
                      /\ i' = i + 1
 Call == /\ Source = "enum" /\ i <= Len(order)
@@ -164,6 +193,7 @@ TraceStep == /\ Source = "file" /\ i <= Len(Traces[tid].ev)
                   /\ out.s.ps = [o \in Objs |-> Ev.st.ps[o]]
                   /\ out.s.perr = {o \in Objs : Ev.st.perr[o]}
                   /\ out.s.nrep = [o \in Objs |-> Ev.st.nrep[o]]
+                  /\ out.s.pz = [o \in Objs |-> Ev.st.pz[o]]
                   /\ Apply(Ev.o, Ev.op, out)
 Next == (Call \/ TraceStep) /\ UNCHANGED <<tid, F, inherit, kindA, order>>
 Spec == Init /\ [][Next]_vars
@@ -175,33 +205,39 @@ GaveUp(o) == Parsed(o) /\ F[Src(o)].parse \in {"fatal", "crash"}            \* t
 \* every entry point ends in a result
 AlwaysResult == \A x \in Results : x.r # "escaped"
 \* when the parser gives up, or the renderer fails, the body shown is the complete text as plain text
+\* ("lost": the body was rendered from a document whose construction had failed, nothing was reported)
 FallbackComplete == \A x \in Results : x.op = "docstring" =>
-                       ((GaveUp(x.o) \/ F[Src(x.o)].tostan = "raises") => x.r = "plainfull")
+                       /\ ((GaveUp(x.o) \/ F[Src(x.o)].tostan = "raises") => x.r = "plainfull")
+                       /\ x.r \notin {"lost", "partial", "broken"}
 \* ... and the problem is reported against the object that carries the docstring
 ReportedWhenFailed == \A o \in Objs : (Parsed(o) /\ F[Src(o)].parse # "ok") => (Src(o) \in perr /\ nrep[Src(o)] >= 1)
-ReportedWhenRenderFails == \A x \in Results : (x.op = "docstring" /\ F[Src(x.o)].tostan = "raises" /\ pd[x.o] = "parsed")
+ReportedWhenRenderFails == \A x \in Results : (x.op = "docstring" /\ (F[Src(x.o)].tostan = "raises" \/ F[Src(x.o)].field = "raises") /\ pd[x.o] = "parsed")
                                                    => (Src(x.o) \in perr /\ nrep[Src(x.o)] >= 1)
 \* one report per object: whatever is called, in whatever order, however often the text is parsed
-OneReport == \A o \in Objs : nrep[o] <= 2 /\ (nrep[o] > 0 <=> o \in perr)
+OneReport == \A o \in Objs : nrep[o] \in {0, 1, F[o].n} /\ (nrep[o] > 0 <=> o \in perr)
 \* a summary is never a failure to produce one
 SummaryAlways == \A x \in Results : x.op = "summary" => x.r \in {"summary", "brokensum", "broken"}
 \* frame: working on one object changes nothing of the other, except the documented sharing with the source of an
 \* inherited docstring (errors are reported against the source; the summary fallback marks the source)
 FrameOK == \A o \in Objs : \A p \in Objs \ {o} :
               (i' = i + 1 /\ res'[Len(res')].o = o /\ p # Src(o)) =>
-                 /\ pd'[p] = pd[p] /\ ps'[p] = ps[p] /\ nrep'[p] = nrep[p] /\ ((p \in perr') <=> (p \in perr))
+                 /\ pd'[p] = pd[p] /\ ps'[p] = ps[p] /\ nrep'[p] = nrep[p] /\ ((p \in perr') <=> (p \in perr)) /\ pz'[p] = pz[p]
 Frame == [][FrameOK]_vars
 \* an inherited docstring never changes what the source itself has parsed
 SourceParseUntouched == [][\A o \in Objs : (i' = i + 1 /\ res'[Len(res')].o = o /\ Src(o) # o) => pd'[Src(o)] = pd[Src(o)]]_vars
 
 \* known finding (findings.d/C08.json  format-toc-unguarded): to_node failing inside get_toc escapes format_toc
-KF_TocEscapes == \A x \in Results : x.r = "escaped" => (x.op = "toc" /\ F[Src(x.o)].toc = "noderaises")
+KF_TocEscapes == \A x \in Results : x.r = "escaped" => (x.op = "toc" /\ (F[Src(x.o)].toc = "noderaises" \/ F[Src(x.o)].node = "once"))
 AlwaysResultOrKF == AlwaysResult \/ KF_TocEscapes
+\* known finding (findings.d/C08.json  epytext-half-built-document-cached): after a swallowed to_node failure the body is lost
+KF_PoisonedCache == \A x \in Results : (x.op = "docstring" /\ x.r = "lost") => F[Src(x.o)].node = "once"
+FallbackCompleteOrKF == FallbackComplete \/ (KF_PoisonedCache /\ \A x \in Results : x.op = "docstring" =>
+                                                 ((GaveUp(x.o) \/ F[Src(x.o)].tostan = "raises") => x.r = "plainfull") /\ x.r \notin {"partial", "broken"})
 
 \* ------------------------------------------------------------------ emission / acceptance
 DoneEnum == Source = "enum" /\ i = Len(order) + 1
 EmitTerminal == DoneEnum => PrintT(ToJson([F |-> F, inherit |-> inherit, kindA |-> kindA, res |-> res,
-                                           final |-> [pd |-> pd, ps |-> ps, nrep |-> nrep, perr |-> [o \in Objs |-> o \in perr]]]))
+                                           final |-> [pd |-> pd, ps |-> ps, nrep |-> nrep, pz |-> pz, perr |-> [o \in Objs |-> o \in perr]]]))
 Accept == (Source = "file" /\ i = Len(Traces[tid].ev) + 1) => TLCSet(1, TLCGet(1) \cup {tid})
 Post == IF Source = "file" THEN PrintT(ToJson([accepted |-> TLCGet(1), total |-> Len(Traces)])) ELSE TRUE
 =============================================================================
